@@ -471,6 +471,10 @@ func (r *PickRig) Apply(o PickOp) {
 	}
 }
 
+// Dirty reports whether a down/up/kill operation was issued since the last
+// quiescence point (call with the rig locked).
+func (r *PickRig) Dirty() bool { return r.dirty }
+
 func (r *PickRig) setDirty() {
 	r.mu.Lock()
 	r.dirty = true
@@ -511,7 +515,7 @@ func GenPickPlan(rt *rapid.T, profile string, maxOps int) PickPlan {
 	genRes := func() PickRes {
 		w := map[string][]int{ // err nosc status notready ready
 			"done": {2, 8, 3, 35, 52},
-			"gen":  {8, 27, 8, 17, 40},
+			"gen":  {6, 30, 6, 18, 40},
 			"err":  {25, 10, 40, 5, 20},
 		}[profile]
 		n := rapid.IntRange(0, 99).Draw(rt, "res")
@@ -540,6 +544,9 @@ func GenPickPlan(rt *rapid.T, profile string, maxOps int) PickPlan {
 		if profile == "done" {
 			minPicks = 3
 		}
+		if profile == "gen" {
+			minPicks = 2
+		}
 		for i, n := 0, rapid.IntRange(minPicks, 5).Draw(rt, "npicks"); i < n; i++ {
 			rp.Picks = append(rp.Picks, genRes())
 		}
@@ -556,12 +563,15 @@ func GenPickPlan(rt *rapid.T, profile string, maxOps int) PickPlan {
 	if profile == "done" {
 		minOps = 7
 	}
+	if profile == "gen" {
+		minOps = 6
+	}
 	nops := rapid.IntRange(minOps, maxOps).Draw(rt, "nops")
 	for i := 0; i < nops; i++ {
 		o := PickOp{}
 		w := map[string][]int{ // start publish finish cancel down up kill
 			"done": {8, 42, 34, 5, 3, 3, 5},
-			"gen":  {25, 35, 8, 7, 10, 10, 5},
+			"gen":  {22, 40, 8, 5, 10, 10, 5},
 			"err":  {45, 30, 10, 5, 4, 4, 2},
 		}[profile]
 		n := rapid.IntRange(0, 99).Draw(rt, "op")
